@@ -1557,15 +1557,15 @@ val drop_cookies : rout list -> rout list
 
 val has_cookies : rout list -> bool
 
-val routs_eqb : proj -> rout list -> rout list -> bool
+val routs_eqb : proj -> bool -> rout list -> rout list -> bool
 
 val rreplay :
-  proj -> config -> z -> rstate list -> (revent * rout list) list -> nat ->
-  (nat * rout list list) option
+  proj -> bool -> config -> z -> rstate list -> (revent * rout list) list ->
+  nat -> (nat * rout list list) option
 
 val rreplay_history :
-  proj -> config -> z -> (revent * rout list) list -> (nat * rout list list)
-  option
+  proj -> bool -> config -> z -> (revent * rout list) list -> (nat * rout
+  list list) option
 
 val rhas_tie : config -> z -> rstate -> revent list -> bool
 
